@@ -161,10 +161,12 @@ def run(ctx):
              any(justified(prog, cn, fa, fp, all_clean_base(prog, cn)) for fp, fa in facts.values()))
         ctx.check('C03.O1', ok, cn.name, 'CleanNode:unwant-guard', cn.where(e),
                   'un-want only under "all regular inputs clean" and "outputs not dirty"')
-        blk = cn.blocks[e['_b']]['ev']
-        ctx.check('C03.O1', any(x['k'] == 'asg' and mentions_field(x['l'], 'Plan::wanted_edges_') and x['op'] in ('--', '-=')
-                                for x in blk), cn.name, 'CleanNode:unwant-without-counter', cn.where(e),
-                  'the un-want is accompanied by --wanted_edges_')
+        # on every way on from the un-want the counter goes down before anything else can look at the plan: before the
+        # recursion into the dependents, before the function is left
+        dec = lambda x: x['k'] == 'asg' and mentions_field(x['l'], 'Plan::wanted_edges_') and x['op'] in ('--', '-=')
+        r_ = cn.find_path(e, lambda x: x['k'] == 'ret' or (x['k'] == 'call' and x.get('name') == 'Plan::CleanNode'), is_blocker=dec)
+        ctx.check('C03.O1', any(dec(x) for x in cn.events('asg')) and r_ is None, cn.name, 'CleanNode:unwant-without-counter', cn.where(e),
+                  'the un-want is accompanied by --wanted_edges_', witness=None if r_ is None else {'blocks': r_[0]})
     ew = prog.fn('Plan::EdgeWanted')
     sig = {}
     for f, inc in ((ew, '++'), (cn, '--')):
